@@ -38,6 +38,10 @@ type Case struct {
 	MaxRead     int       `json:"max_read,omitempty"` // every read returns at most this many bytes (0 = no limit)
 	EOFWithData bool      `json:"eof_with_data,omitempty"`
 	AllCutSets  bool      `json:"all_cut_sets,omitempty"` // run every cut set of the stream (stream must be short)
+	// SharedBuf: the sender keeps all its records side by side in one buffer and
+	// hands Send a sub-slice for each (so every slice has spare capacity, namely
+	// the records behind it).
+	SharedBuf bool `json:"shared_buf,omitempty"`
 }
 
 var framingNames = []string{"line", "split1e", "split00", "splitsp", "splitff", "split80", "splitc2", "hdr", "hdrbin", "hdrcaps", "hdrcolon", "strict", "stricttp", "strictcaps", "lsp", "rawjson", "direct"}
@@ -179,6 +183,17 @@ func run(_ *testing.T, c Case) engine.Verdict {
 	var bounds []int // stream offset after each accepted record
 	var hdrEnds []int
 	refused := 0
+	var arena, pristine []byte
+	var offs []int
+	if c.SharedBuf {
+		for _, rs := range c.Records {
+			offs = append(offs, len(arena))
+			arena = append(arena, rs.bytes()...)
+		}
+		offs = append(offs, len(arena))
+		arena = append(arena, "<-guard>"...)
+		pristine = append([]byte(nil), arena...)
+	}
 	for i, rs := range c.Records {
 		rec := rs.bytes()
 		before, wbefore := w.Len(), w.writes
@@ -187,8 +202,18 @@ func run(_ *testing.T, c Case) engine.Verdict {
 		if len(rec) == 0 && i%2 == 1 {
 			rec = nil // an empty record may be handed over as a nil slice as well
 		}
+		if c.SharedBuf {
+			rec = arena[offs[i]:offs[i+1]]
+		}
 		if p := safely(func() { err = snd.Send(rec) }); p != nil {
 			return engine.Failf(sig+"/send-panic", "Send of record %d panicked: %v", i, p)
+		}
+		if c.SharedBuf && !bytes.Equal(arena, pristine) {
+			d := 0
+			for d < len(arena) && arena[d] == pristine[d] {
+				d++
+			}
+			return engine.Failf(sig+"/sender-buffer-modified", "the sender keeps its records side by side in one buffer; Send of record %d (bytes %d..%d of that buffer) changed byte %d of the buffer from %q to %q (Send returned %v): the records behind it are no longer the ones the sender meant to send", i, offs[i], offs[i+1], d, pristine[d], arena[d], err)
 		}
 		if isSplit && bytes.IndexByte(orig, sep) >= 0 {
 			refused++
@@ -452,6 +477,7 @@ func genCase(big bool) func(t *rapid.T) Case {
 			}
 		}
 		c.EOFWithData = rapid.Bool().Draw(t, "eofWithData")
+		c.SharedBuf = rapid.IntRange(0, 3).Draw(t, "sharedbuf") == 0
 		return c
 	}
 }
@@ -573,7 +599,7 @@ var parts = []engine.AnyPart{
 	engine.Part[Case]{Name: "huge", Run: run, Enum: enumHuge,
 		Rule: "growing and shrinking multi-megabyte sequences (thorough: across the 16 MiB pre-allocation threshold); " + ntRule},
 	engine.Part[Case]{Name: "random", Run: run, Gen: genCase(false),
-		Rule: "0-12 records with sizes around 0/4096/65536, hostile short literals (some containing the split byte), random cuts / bounded reads / 1-byte reads; " + ntRule},
+		Rule: "0-12 records with sizes around 0/4096/65536, hostile short literals (some containing the split byte), random cuts / bounded reads / 1-byte reads; one sender in four keeps its records side by side in one buffer and sends sub-slices (the buffer must be unchanged after every Send); " + ntRule},
 	engine.Part[Case]{Name: "randombig", Run: run, Gen: genCase(true),
 		Rule: "as random, with sizes up to 3 MiB; " + ntRule},
 }
